@@ -532,7 +532,9 @@ spifopt_parse(int argc, char *argv[])
         D_OPTIONS(("argv[%d] == \"%s\", opt == \"%s\"\n", i, argv[i], opt));
 
         if (SPIF_PTR_ISNULL(opt)) {
-            /* NEXT_ARG(); */
+            /* The command line ends here (an earlier pass removed words and
+               terminated it early); what lies behind is not part of it. */
+            argc = i;
             break;
         } else if (opt == SPIF_CHARPTR(argv[i])) {
             /* If it's not an option (a lone "-" is an ordinary word), skip it. */
